@@ -246,6 +246,14 @@ def families(tier, seed):
         yield Instance(f"topo-unit-side|{tn}", mol(tok("N"), sto("[>]", [u1, "[<]CO[>]"], ["[<]Cl"], "[<]", g0(round(1.2 * mass(u1), 3))), tok("F")), family="role-topology")
         u2 = "[<]" + body + "[>]"
         yield Instance(f"topo-unit-backbone|{tn}", mol(tok("N"), sto("[>]", [u2], [], "[<]", g0(round(1.5 * mass(u2), 3))), tok("F")), family="role-topology")
+    # 19. side chains that grow AND terminate through transition lists while the backbone keeps growing (bottle brush): steps
+    #     that add an end group of (almost) no mass are growth steps too; lists on the left terminal that do not sum to 1
+    yield Instance("brush-mini|70", mol(tok("N"), sto("[$]", ["[$]C([<|3|])C[$]", "[>]CO[<|0 0 0 1 0 2|]"], ["[>][H]"], "[$]", g0(70.0)), tok("Br")), family="transitions")
+    yield Instance("brush-h|70", mol(tok("N"), sto("[$]", ["[$]C([<|0 0 0 1|])C[$]"], ["[>][H]"], "[$]", g0(70.0)), tok("Br")), family="transitions")
+    if thorough:
+        yield Instance("brush-h|two-units", mol(tok("N"), sto("[$]", ["[$]C([<|0 0 0 0 0 0 1|])C[$]", "[$]C([<|0 0 0 0 0 0 1|])O[$]"], ["[>][H]"], "[$]", g0(50.0)), tok("Br")), family="transitions")
+    yield Instance("left-list-unnormalised", mol(tok("N"), sto("[>|3 0 1 0|]", ["[<]CC[>]", "[<]CO[>]"], [], "[<]", g0(40.0)), tok("F")), family="transitions")
+    yield Instance("left-list-unnormalised-branch", mol(tok("OC"), sto("[>|3 0 1 0|]", ["[<]CC([>|2|])C(=O)OC", "[<]CC[>]"], [], "[<]", g0(60.0)), tok("[H]")), family="transitions")
     # 18. hand-over details: explicit connector whose two descriptors both carry weight 1 (or 2 / 1); two ADJACENT objects the
     #     first of which is capped with heavy end groups at its hand-over; a list on the descriptor of the STARTING end group
     yield Instance("conn-weights|1-1", mol(tok("N"), sto("[>]", [a], [], "[<]", g0(40.0)), tok("[<]C(=O)O[>]"), sto("[>]", [b], [], "[<]", g0(40.0)), tok("F")), family="handover-details")
